@@ -14,6 +14,15 @@ CLAIMED = {
              "bytes, and every recorded step is validated by TLC against ByteQueue.",
         ref="5/C08", technique="TLA+ refinement model checking (TLC) + state-graph replay + TLC trace validation",
         note="Trusts TLC, the driver's projection (bytes/size/owns/terminator/guards), ASan for out-of-range access; sizes <= 9."),
+    "C12": dict(
+        text="TLC model-checks Connections.tla (the connection/emission rule with arbitrarily nested operations) and "
+             "CallbackImpl.tla (slot states, dirty flag, activation chain, invalidation, first-match searches as written) "
+             "for refinement, bookkeeping agreement and absence of access through destroyed objects; every edge of that "
+             "state graph and seeded random nested programs are executed by a re-entrant interpreter on the real Callback "
+             "classes under ASan and every event (invocation, return, both sides' bookkeeping at quiescent points) is "
+             "validated by TLC against Connections (set-of-states trace validation because Layer 1 is nondeterministic).",
+        ref="5/C12", technique="TLA+ refinement model checking (TLC) + state-graph replay through re-entrant interpreter + TLC trace validation",
+        note="Trusts TLC, the interpreter, the bookkeeping projection read through the access override, ASan; bounds: <=3 emitters x 2 signals, <=4 listeners x 2 slots, nesting <= 6."),
 }
 
 PENDING_REASON = "check not built yet in this revision of /verif (planned: see DESIGN.md section 5); not claimed until its machinery runs"
